@@ -155,6 +155,40 @@ def run(run):
                             run.violation("C07:run-to-run-difference", "two scans of the same %d-file project differ (GOMAXPROCS=%d)" % (nf, procs), dict(nfiles=nf, procs=procs))
             finally:
                 shutil.rmtree(root, ignore_errors=True)
+        # ---- good files interleaved with entries that cannot be read (dangling links): which worker meets which
+        #      faulty entry depends on the schedule; the good files' results must not
+        for nf in ([8] if quick else [3, 8, 20, 45]):
+            root = C.scratch("c07f")
+            try:
+                files = make_project(rng, root, nf)
+                rels = sorted(files)
+                for i, rel in enumerate(rels):
+                    d = os.path.dirname(os.path.join(root, rel))
+                    base = os.path.basename(rel)[:-5]
+                    for j in range(2):
+                        os.symlink(os.path.join(root, "nowhere.java"), os.path.join(d, "%s_%dgone.java" % (base, j)))
+                ref = None
+                for procs in ([1, 16] if quick else [1, 2, 4, 16]):
+                    for rep in range(2 if quick else 3):
+                        r = h.call(op="scan-order", dir=root, graph="g", order=[], procs=procs, timeout=240)
+                        run.count(("faulty-mix", nf, procs, rep))
+                        stats["faulty_mix_scans"] += 1
+                        if r.get("outcome") != "ok":
+                            run.violation("C07:scan-" + str(r.get("outcome")), "scan of %d files mixed with unreadable entries ends with %s" % (nf, r.get("outcome")), dict(nfiles=nf, procs=procs))
+                            if r.get("outcome") in ("died", "hang"):
+                                h = C.Harness()
+                            continue
+                        got = canon(r["nodes"], r["edges"])
+                        seen = len({n["file"] for n in r["nodes"]})
+                        if seen != nf:
+                            run.violation("C07:files-lost", "%d readable files interleaved with %d dangling links: entities of %d files reported (GOMAXPROCS=%d)" % (nf, 2 * nf, seen, procs),
+                                          dict(nfiles=nf, procs=procs, layout="every X.java is followed by X_0gone.java, X_1gone.java -> nowhere"))
+                        if ref is None:
+                            ref = got
+                        elif got != ref:
+                            run.violation("C07:run-to-run-difference", "two scans of the same project (%d files + unreadable entries) differ (GOMAXPROCS=%d)" % (nf, procs), dict(nfiles=nf, procs=procs))
+            finally:
+                shutil.rmtree(root, ignore_errors=True)
         # ---- thorough: the race detector
         if not quick:
             env = dict(C.GOENV, GOFLAGS="-mod=mod")
